@@ -82,7 +82,15 @@ MAP_PY = {"KDict": dict, "KOrderedDict": collections.OrderedDict}
 HASHABLE_LEAVES = ["int", "str", "Decimal", "Fraction", "UUID", "date", "bool", "float"]
 
 PRELUDE = ("import typing, collections, collections.abc, dataclasses, datetime, decimal, enum, fractions, "
-           "pathlib, uuid\nfrom typelib.py.compat import TypeAliasType\n")
+           "pathlib, uuid\nfrom typelib.py.compat import TypeAliasType\n"
+           "def _verif_um(t, x, depth=0):\n"
+           "    from typelib import unmarshals\n"
+           "    if depth:\n        return _verif_um(t, x, depth - 1)\n"
+           "    return unmarshals.unmarshal(t, x)\n"
+           "def _verif_m(t, x, depth=0):\n"
+           "    from typelib import marshals\n"
+           "    if depth:\n        return _verif_m(t, x, depth - 1)\n"
+           "    return marshals.marshal(x, t=t)\n")
 
 
 # ----------------------------------------------------------------------------------
